@@ -381,6 +381,36 @@ func entriesNaming(e *job.Event, path string) int {
 	return n
 }
 
+// missingDocs returns the bad documents of an item that no severe, non-fatal entry accounts for. A
+// document is accounted for by an entry that mentions its resource name; an item without resource names
+// (or one the directory scan rejects as a whole) by an entry that mentions its file. Entries are not
+// counted: one entry that reports several documents of a file is as good as several entries.
+func missingDocs(e *job.Event, it *faultItem, perDir int) []string {
+	base := filepath.Base(it.Path)
+	count := func(needle string) int {
+		n := 0
+		for _, x := range e.Errors {
+			if x.Severe && !x.Fatal && (strings.Contains(x.Location, needle) || strings.Contains(x.Text, needle)) {
+				n++
+			}
+		}
+		return n
+	}
+	var miss []string
+	if it.Scan || len(it.Names) == 0 {
+		if count(base) < perDir {
+			miss = append(miss, base)
+		}
+		return miss
+	}
+	for _, nm := range it.Names {
+		if count(nm) < perDir && count(base) < perDir*len(it.Names) {
+			miss = append(miss, nm)
+		}
+	}
+	return miss
+}
+
 // entriesNamingItem: for diff, whose entries carry no file location, the resource names count too.
 func entriesNamingItem(e *job.Event, it *faultItem) int {
 	base := filepath.Base(it.Path)
@@ -490,19 +520,20 @@ func c13Judge(c *c13Case, items []faultItem, steps []job.Step, ev []job.Event) (
 		}
 	}
 	// (b) every broken / non-convertible / unreadable item has its severe entries
-	for _, it := range items {
+	for k := range items {
+		it := &items[k]
 		if it.Entries == 0 {
 			continue
 		}
 		if bad(1) {
 			break
 		}
-		if n := entriesNaming(&ev[1], it.Path); n < it.Entries {
-			return "b", fmt.Sprintf("list (directory API): %s item %s has %d severe entries naming it, want at least %d", it.Kind, it.Path, n, it.Entries)
+		if miss := missingDocs(&ev[1], it, 1); len(miss) > 0 {
+			return "b", fmt.Sprintf("list (directory API): %s item %s: no severe entry accounts for %v", it.Kind, it.Path, miss)
 		}
 		if !it.Scan && !bad(2) {
-			if n := entriesNaming(&ev[2], it.Path); n < it.Entries {
-				return "b", fmt.Sprintf("list (ResourceInfos API): %s item %s has %d severe entries naming it, want at least %d", it.Kind, it.Path, n, it.Entries)
+			if miss := missingDocs(&ev[2], it, 1); len(miss) > 0 {
+				return "b", fmt.Sprintf("list (ResourceInfos API): %s item %s: no severe entry accounts for %v", it.Kind, it.Path, miss)
 			}
 		}
 	}
@@ -520,8 +551,8 @@ func c13Judge(c *c13Case, items []faultItem, steps []job.Step, ev []job.Event) (
 			if it.Entries == 0 {
 				continue
 			}
-			if n := entriesNamingItem(e, it); n < 2*it.Entries {
-				return "b", fmt.Sprintf("diff with bad documents on both sides: %s item %s has %d severe entries naming it, want at least %d (one set per directory)", it.Kind, it.Path, n, 2*it.Entries)
+			if miss := missingDocs(e, it, 2); len(miss) > 0 {
+				return "b", fmt.Sprintf("diff with bad documents on both sides: %s item %s: %v not reported once per directory", it.Kind, it.Path, miss)
 			}
 		}
 	}
